@@ -10,6 +10,18 @@ This changes no behaviour: it only removes branches whose outcome is fixed on th
 import copy
 
 # enums whose discriminant value equals the variant index
+ENUM_DISCR = {}          # repo enum path -> {variant index: discriminant value}; filled from the fact file's adt table
+
+
+def set_enum_table(F):
+    ENUM_DISCR.clear()
+    for k, a in F.adts.items():
+        if a.get("kind") == "enum" and a.get("crate") in ("multiboot2", "multiboot2_common", "multiboot2_header") and a.get("variants"):
+            tab = {v["idx"]: v.get("discr", v["idx"]) for v in a["variants"] if isinstance(v.get("discr", v["idx"]), int)}
+            if len(tab) == len(a["variants"]):
+                ENUM_DISCR[a["path"]] = tab
+
+
 _IDX_IS_DISCR = ("core::option::Option", "core::result::Result", "core::ops::control_flow::ControlFlow")
 
 
@@ -70,6 +82,9 @@ def _scan(bb, upto, x):
                 rv = s["rv"]
                 if rv["k"] == "aggr" and rv.get("ak") == "adt" and rv.get("variant_idx") is not None and rv.get("adt") in _IDX_IS_DISCR:
                     return ("known", rv["variant_idx"])
+                if rv["k"] == "aggr" and rv.get("ak") == "adt" and rv.get("variant_idx") is not None and rv.get("adt") in ENUM_DISCR and \
+                        rv["variant_idx"] in ENUM_DISCR[rv["adt"]]:
+                    return ("known", ENUM_DISCR[rv["adt"]][rv["variant_idx"]])      # a repo enum: discriminant from the compiler's table
                 if rv["k"] == "use" and "k" in rv["op"]:
                     k = rv["op"]["k"]
                     if k.get("variant_idx") is not None and str(k.get("ty", "")).startswith(_IDX_IS_DISCR):
